@@ -27,6 +27,6 @@ PROP = {
 
 TEXT = {
     "technique": "stateful (model-based) property-based testing: key histories typed one byte per call into the terminal automaton in lock step with a reference line editor, the bytes of the write callback replayed on a one-row VT100 screen model; bounded exhaustive enumeration of short key sequences; exactly-sized heap line/history buffers under ASan/UBSan; libFuzzer in thorough",
-    "level": "Generated-history exploration: every sequence of <= 5 keys (<= 7 in thorough) over {a, b, BS, LEFT, RIGHT, DEL, UP, DOWN, CR, LF, Ctrl-C, ESC-x} x line capacity {2,3,4,8} x history depth {1,2} is enumerated for vterm.c and for igris::vtermxx (2.17 M sequences each in quick), and millions of random histories (capacity 2..24 — and, in the *_long targets, capacity 250..262 with one run of about capacity equal characters so that cursor and length pass 255 — depth 1..4, <= 120 keys: text over few letters incl. the tail characters of escape sequences, BS, ESC[A/B/C/D, ESC[3~, CR, LF, CR LF, LF CR, Ctrl-C, ESC x / ESC[Z / ESC[3x, a lone ESC before other keys) are typed one byte per newdata call with the idle step (-1) after every byte. After every byte: the number of execute callbacks, the line, length and NUL terminator each one received and the SIGINT callbacks must equal the reference editor's; the edit buffer content, 0 <= cursor <= length < capacity through sline_size/sline_rightsize (for vtermxx, whose readline is private: on a stand-alone igris::readline fed the same bytes); the screen row must equal prompt + reference line and the screen cursor len(prompt) + reference cursor. Line and history buffers are exactly-sized heap blocks (vterm.c) / igris' own exact operator-new blocks (vtermxx). struct sline and igris::sline are additionally driven directly (putchar, newdata of 0..2*capacity bytes from an exact block, getline, backspace(k), delete(k), left, right, reset, equal) against a string model with return values and every accessor compared after each call. Nothing is established beyond the explored histories. Further targets initialise the same terminal object a second time (another capacity and history depth) after a first session, and run the terminal with echo off (nothing may be written).",
+    "level": "Generated-history exploration: every sequence of <= 5 keys (<= 7 in thorough) over {a, b, BS, LEFT, RIGHT, DEL, UP, DOWN, CR, LF, Ctrl-C, ESC-x} x line capacity {2,3,4,8} x history depth {1,2} is enumerated for vterm.c and for igris::vtermxx (2.17 M sequences each in quick), and millions of random histories (capacity 2..24 — and, in the *_long targets, capacity 250..262 with one run of about capacity equal characters so that cursor and length pass 255 — depth 1..4, <= 120 keys: text over few letters incl. the tail characters of escape sequences, BS, ESC[A/B/C/D, ESC[3~, CR, LF, CR LF, LF CR, Ctrl-C, ESC x / ESC[Z / ESC[3x, a lone ESC before other keys) are typed one byte per newdata call with the idle step (-1) after every byte. After every byte: the number of execute callbacks, the line, length and NUL terminator each one received and the SIGINT callbacks must equal the reference editor's; the edit buffer content, 0 <= cursor <= length < capacity through sline_size/sline_rightsize (for vtermxx, whose readline is private: on a stand-alone igris::readline fed the same bytes); the screen row must equal prompt + reference line and the screen cursor len(prompt) + reference cursor. Line and history buffers are exactly-sized heap blocks (vterm.c) / igris' own exact operator-new blocks (vtermxx). struct sline and igris::sline are additionally driven directly (putchar, newdata of 0..2*capacity bytes from an exact block, getline, backspace(k), delete(k), left, right, reset, equal) against a string model with return values and every accessor compared after each call. Nothing is established beyond the explored histories. Further targets initialise the same terminal object a second time (another capacity and history depth) after a first session, and run the terminal with echo off (nothing may be written). Each C callback has a private pointer of its own; linecpy is called with destinations shorter than, as long as and longer than the line after every key.",
     "note": "Trusted: the harness' reference editor and VT100 row model (printable bytes, CR, LF, ESC[nD, ESC[nC, ESC[K; blank cell = space). Free choices of the implementation adopted as reference semantics (DESIGN.md C15): UP beyond the stored lines recalls empty slots until the browse index reaches the history depth; a line equal to the most recent stored one is not stored again; Ctrl-C bypasses the key automaton (escape state and CR/LF pairing survive it); the CR/LF pairing looks at the previous byte the automaton saw, whatever consumed it (ESC CR LF swallows both). The prompt is the default '$ ', echo is on. Return codes of readline_putchar are not judged (only their effect). igris::sline::set_size_and_cursor/clear/init and readline_linecpy are not exercised.",
 }
